@@ -1,15 +1,15 @@
 #!/bin/bash
 # every seeded change must make its property's quick check report a violation; the unchanged tree must stay silent.
 # usage: tools/regress_seeded.sh [name ...]   (default: all of seeded/)
-cd /verif
+cd "$(dirname "$0")/.."; REPO=${VERIF_REPO:-/repo}
 names="$@"; [ -z "$names" ] && names=$(ls seeded)
 fail=0
 for n in $names; do
   prop=$(python3 -c "import json;print(json.load(open('seeded/$n/meta.json'))['property'])")
-  if [ -n "$(git -C /repo status --porcelain --untracked-files=no)" ]; then echo "/repo dirty"; exit 3; fi
-  git -C /repo apply /verif/seeded/$n/patch.diff || { echo "$n: patch does not apply"; fail=1; continue; }
+  if [ -n "$(git -C $REPO status --porcelain --untracked-files=no)" ]; then echo "/repo dirty"; exit 3; fi
+  git -C $REPO apply "$PWD/seeded/$n/patch.diff" || { echo "$n: patch does not apply"; fail=1; continue; }
   out=$(./check $prop quick 2>&1); rc=$?
-  git -C /repo checkout -- .
+  git -C $REPO checkout -- .
   sigs=$(echo "$out" | grep -c "^VIOLATION")
   if [ $rc -eq 1 ] && [ $sigs -gt 0 ]; then echo "$n ($prop): caught, $sigs signature(s)"; else echo "$n ($prop): NOT CAUGHT (exit $rc)"; fail=1; fi
 done
